@@ -254,11 +254,22 @@ theorem input_files_failed (p : Package) (a? : Option Bytes)
 theorem input_of_files (p : Package) (a? : Option Bytes) (es : List Acc.FileEntry) (v : Nat) (a : Bytes)
     (he : Acc.getFileEntries p.md.signature p.md.header = .ok es)
     (hv : Acc.getPayloadCompressorVariant p.md.header = .ok v)
-    (ha : (if payloadIsArchive v then some p.content else a?) = some a) :
-    extractInput p a? = some ⟨dirnamesOf p, (collect es (Cpio.iterate a (pathsOf es) (sizesOf es))).1,
+    (ha : (if payloadIsArchive v then some p.content else a?) = some a)
+    (supported : Nat → Bool := fun _ => true) (hs : supported v = true := by rfl) :
+    extractInput p a? supported = some ⟨dirnamesOf p, (collect es (Cpio.iterate a (pathsOf es) (sizesOf es))).1,
                                            (collect es (Cpio.iterate a (pathsOf es) (sizesOf es))).2⟩ := by
   unfold extractInput dirnamesOf
-  simp only [he, hv, ha, itemsOf, pathsOf, sizesOf]
+  simp only [he, hv, ha, hs, itemsOf, pathsOf, sizesOf, Bool.not_true, Bool.false_eq_true, if_false]
+
+/-- the codec the header names is not compiled into the library (`decompress_stream`'s `_ => Err(UnsupportedCompressorType)`):
+`files()` fails, `extract` sees no item and an error after the directory names — whatever the payload is -/
+theorem input_unsupported (p : Package) (a? : Option Bytes) (es : List Acc.FileEntry) (v : Nat)
+    (he : Acc.getFileEntries p.md.signature p.md.header = .ok es)
+    (hv : Acc.getPayloadCompressorVariant p.md.header = .ok v)
+    (supported : Nat → Bool) (hs : supported v = false) :
+    extractInput p a? supported = some ⟨dirnamesOf p, [], false⟩ := by
+  unfold extractInput dirnamesOf
+  simp only [he, hv, hs, Bool.not_false, if_true]
 
 theorem input_items_are_iteration (es : List Acc.FileEntry) (a : Bytes) :
     (itemsOf es a).1.map some = (okPrefix (Cpio.iterate a (pathsOf es) (sizesOf es))).map (fun x => itemOf es x.1 x.2)
@@ -614,6 +625,44 @@ example : Contained [nTarget] jail (extract wViewOk [nTarget] jail).fs :=
   (extract_package_hostile (wPkg none []) none wViewOk (by decide +kernel) [nTarget] jail jail_clean).2.2.1
 example : (extract wViewOk [nTarget] jail).out = .ok () ∧
     (extract wViewOk [nTarget] jail).fs.get [nTarget, nF] = some (.file [104, 105] 0o644) := by decide +kernel
+
+/-! ### damaged and truncated compressed payloads: what a streaming decoder lets `extract` see (AUDIT2 a12) -/
+
+theorem prefix_of_map_some {α} {l1 l2 : List α} (h : l1.map some <+: l2.map some) : l1 <+: l2 := by
+  obtain ⟨t, ht⟩ := h
+  obtain ⟨a, b, hab, ha, _⟩ := List.map_eq_append_iff.mp ht.symm
+  have : a = l1 := (List.map_inj_right (fun _ _ h => Option.some.inj h)).mp ha
+  subst this
+  exact ⟨b, hab.symm⟩
+
+/-- **a damaged payload: `extract` sees an initial segment of the intact package's items.** With the decoder handing out
+only the bytes `pre` of what the intact payload decodes to (`pre ++ t`), the items are a prefix of the intact ones — each
+still the content of its own archive entry under the metadata of the header file that entry designates
+(`input_item_designated`) — and, unless the cpio trailer lies inside `pre`, the iteration ends with an error: `extract`
+then stops with `Err` after having written those items (a partial extraction, contained like every other run:
+`extract_package_hostile`). -/
+theorem input_items_prefix (es : List Acc.FileEntry) (pre t : Bytes) :
+    (itemsOf es pre).1 <+: (itemsOf es (pre ++ t)).1 := by
+  apply prefix_of_map_some
+  rw [(input_items_are_iteration es pre).1, (input_items_are_iteration es (pre ++ t)).1]
+  apply List.IsPrefix.map
+  have h := FileIter.okPrefix_iterateE_append (pathsOf es) (sizesOf es) (sizesOf es).length pre t
+  simp only [Cpio.iterate, Cpio.iterateFrom, C07.okPrefix_map_outMap]
+  exact h.map _
+
+/-- … and when the trailer does lie inside `pre` nothing of the damage is seen: same items, clean end -/
+theorem input_items_clean (es : List Acc.FileEntry) (pre t : Bytes) (h : (itemsOf es pre).2 = true) :
+    itemsOf es (pre ++ t) = itemsOf es pre := by
+  have hall := (input_items_are_iteration es pre).2.mp h
+  have hcl : ∀ o ∈ Cpio.iterateE (pathsOf es) (sizesOf es) (sizesOf es).length pre, o.isOk = true := by
+    intro o ho
+    have := hall (o.map fun x => (x.1, x.2.2)) (List.mem_map.mpr ⟨o, ho, rfl⟩)
+    cases o <;> simp_all [Out.map, Out.isOk]
+  unfold itemsOf
+  have e : Cpio.iterate (pre ++ t) (pathsOf es) (sizesOf es) = Cpio.iterate pre (pathsOf es) (sizesOf es) := by
+    simp only [Cpio.iterate, Cpio.iterateFrom]
+    rw [FileIter.iterateE_append_clean (pathsOf es) (sizesOf es) _ pre t hcl]
+  exact congrArg (collect es) e
 
 /-! ### `NAME_MAX`: names longer than 255 bytes (AUDIT2 a20) -/
 
